@@ -117,6 +117,16 @@ def _r(x, nd=6):
 def gen_space(rng: random.Random, dims: int, small=False):
     lows, highs, precs = [], [], []
     for _ in range(dims):
+        if rng.random() < 0.3:
+            # "nice" decimal spaces: the last grid element may land a few ulps off the declared bound
+            prec = rng.choice([0.1, 0.05, 0.2, 0.01, 0.3, 0.15, 0.7, 0.001, 2.5])
+            lo = rng.choice([0.0, 0.1, -0.3, 1.0, 0.05, -1.0, 0.499, 100.0])
+            k = rng.randint(2, 8) if small else rng.randint(2, 40)
+            hi = float(repr(round(lo + k * prec + rng.choice([0.0, 0.0, 0.0, 0.5 * prec, 0.9 * prec]), 10)))
+            lows.append(lo)
+            highs.append(hi)
+            precs.append(prec)
+            continue
         scale = rng.choice([1e-3, 0.1, 1.0, 1.0, 1.0, 10.0, 1e3])
         lo = _r(rng.choice([-2.5, -1.0, -0.3, 0.0, 0.0, 0.01, 0.5, 3.0]) * scale)
         width = scale * rng.choice([0.5, 1.0, 1.0, 2.0, 3.0])
@@ -388,7 +398,15 @@ class CalSim:
         if out.ndim != 2 or out.shape != (b.bs, space.dims):
             self.mon.append(("C03", "shape", b.cls, f"{b.cls} returned shape {out.shape}, expected {(b.bs, space.dims)}"))
             return
+        lo_hi = np.asarray(self.cfg["space"]["bounds"], dtype=float) if len(self.cfg["space"]["precision"]) == space.dims else None
         for j in range(space.dims):
+            if lo_hi is not None:
+                oob = (out[:, j] < lo_hi[0][j] - 1e-7) | (out[:, j] > lo_hi[1][j] + 1e-7)
+                if oob.any():
+                    self.mon.append(("C03", "out-of-bounds", b.cls,
+                                     f"{b.cls} proposed {out[oob, j][0]!r} for parameter {j}, outside the declared bounds "
+                                     f"[{lo_hi[0][j]!r}, {lo_hi[1][j]!r}] (+-1e-7)"))
+                    return
             bad = ~np.isin(out[:, j], space.param_grid[j])
             if bad.any():
                 self.stats["probe:offgrid"] += 1
@@ -466,7 +484,7 @@ class CalSim:
         from black_it.schedulers.rl.agents.base import Agent
         sm = self.seams
         sim = self
-        sm.replace_global("parallel", joblib.Parallel, lambda n_jobs=None, **kw: SimParallel(sim, n_jobs=n_jobs, **kw))
+        sm.replace_global("parallel", joblib.Parallel, lambda n_jobs=None, *a, **kw: SimParallel(sim, n_jobs=n_jobs, **kw))
         sm.replace_global("clock", _time, SimClock({int(k): v for k, v in self.env["clock_jumps"].items()}))
         self.baton = Baton(self.env["sched"])
         sm.replace_global("threading", _th, ThreadingShim(self.baton))
